@@ -8,5 +8,5 @@ use super::*;
 /// engine (and, through `Deferred`'s function pointer, every deferred closure) into the formula.
 /// The stub turns "never reached" into a checked obligation.
 pub(crate) fn s_unpin_unreachable(_l: &Local) {
-    assert!(false, "C16.unpin.unreachable_with_null_local_guard");
+    assert!(false, "unreachable.unpin_with_null_local_guard (L1/L2 harness guards have a null local)");
 }
